@@ -15,7 +15,7 @@ import (
 // submitted task runs exactly once and gets its own result, and Run after Shutdown is an error.
 func VerifC03_P_pool() {
 	maxWorkers := 1 + sym.Choice("max_workers_minus_1", 2)
-	nTasks := 3
+	nTasks := 4
 	ctx, cancel := context.WithCancel(context.Background())
 	defer cancel()
 	pool := NewTaskWorkerPool[int](console.GetLogger(ctx), maxWorkers, func(tea.Msg) {}, nTasks)
